@@ -347,6 +347,19 @@ def gen_spec(rng, info, fam, rev, cver, mem, k, tier, force=None):
                 else:
                     cursor = _align(cursor, 4)
                 cursor = _align(cursor + _model_size(dev, img) + img["gap"], a)
+        # hostile plan: one image is placed so that it covers the LAST k bytes of the image before it (k = 1 is the
+        # boundary of every interval test); such a layout has to be refused, it is never a valid image
+        flat = [img for c in spec["containers"] for img in c["images"]]
+        if force.get("overlap", rng.random() < 0.08) and len(flat) > 1:
+            j = rng.randrange(1, len(flat))
+            prev, cur = flat[j - 1], flat[j]
+            if prev["explicit"]:
+                k = _pick(rng, [1, 1, 2, 8, 16])
+                size = _model_size(dev, prev)
+                if size > k:
+                    cur["explicit"] = True
+                    cur["offset"] = prev["offset"] + size - k
+                    spec["hostile_overlap"] = {"image": j, "bytes": k}
     return spec
 
 
